@@ -81,6 +81,15 @@ Theorem C13_iter_kmer_exts : forall c, In c shipped -> forall l : dna, wf_dna l 
         (seq 0 (length l + 1 - kK c)).
 Proof. exact iter_kmer_exts_spec. Qed.
 
+(* the expected items in the form used by the list-level specification of the correspondence run (s.kmer_exts) *)
+Theorem C13_kmer_exts_item_form : forall c (l : dna) exts,
+  map (kmer_exts_item c l exts) (seq 0 (length l + 1 - kK c)) =
+  map (fun i => (kmer_at (kK c) l i,
+                 if Nat.eqb i 0 then exts_left exts else [nth (i - 1) l 0],
+                 if Nat.eqb (i + kK c) (length l) then exts_right exts else [nth (i + kK c) l 0]))
+      (seq 0 (length l + 1 - kK c)).
+Proof. exact kmer_exts_item_form. Qed.
+
 (* ---- the iterators on each container *)
 Theorem C13_dnastring_iter_kmers : forall c, In c shipped -> forall s, d_inv s ->
   exists ks, iter_kmers c (d_len s) (d_get s) (d_get_kmer c s) = Some ks /\ Forall (wf (kK c)) ks /\
